@@ -636,28 +636,29 @@ func packageRegexpLiteral(pk *packages.Package, e ast.Expr) (string, bool) {
 
 // generatorLoopExits: the reviewed early exits of the generator's loops over input collections.
 var generatorLoopExits = map[string]string{
-	"generator.hasValidations › loop over spec.Schema #1 › answers true #1":                         "‹spec.Schema›.Ref.String() != \"\" || hasValidations(&‹spec.Schema›, false) ⇒ an allOf member that is a $ref, or that carries validations of its own (looked for recursively), makes the composed schema validatable",
-	"generator.codeGenOpBuilder.analyzeTags › loop over spec.Tag #1 › continue #1":                  "‹spec.Tag›.Name != ‹string› ⇒ search for the tag object of the chosen tag name: other tags are passed over",
-	"generator.codeGenOpBuilder.analyzeTags › loop over spec.Tag #1 › break #1":                     "‹bool› ⇒ search: the tag was found and carries x-go-name",
-	"generator.codeGenOpBuilder.analyzeTags › loop over spec.Tag #1 › break #2":                     "‹bool› ⇒ search: the tag was found and carries x-go-operation-tag",
-	"generator.makeGenDefinitionHierarchy › loop over spec.Schema #1 › continue #1":                 "‹generator.schemaGenContext›.GenSchema.AllOf == nil ⇒ a subtype whose resolved allOf is empty has no branch to re-point at the base type (logged)",
-	"generator.paramMappings › loop over spec.Parameter #1 › continue #1":                           "!‹bool› ⇒ parameter with an `in` outside the five locations: invalid spec, only reachable with --skip-validation (logged)",
-	"generator.paramMappings › loop over spec.Parameter #1 › continue #2":                           "‹spec.Parameter›.Name == \"\" ⇒ unnamed parameter: invalid spec, only reachable with --skip-validation (logged)",
-	"generator.schemaGenContext.buildAllOf › loop over spec.Schema #1 › continue #1":                "(‹generator.resolvedType›.IsAnonymous && len(‹spec.Schema›.AllOf) > 0) || (‹spec.Schema›.Ref.String() == \"\" && !‹generator.resolvedType›.IsComplexObject && (‹generator.resolvedType›.IsArray || ‹generator.resolvedType›.IsInterface || ‹generator.resolvedType›.IsPrimitive)) ⇒ end of the arm that handles a $ref'ed allOf member: the member has been merged and appended just above",
-	"generator.schemaGenContext.liftSpecialAllOf › loop over spec.Schema #1 › break #1":             "len(‹spec.Schema›.Type) > 0 || len(‹spec.Schema›.Properties) > 0 || ‹spec.Schema›.Ref.GetURL() != nil || len(‹spec.Schema›.AllOf) > 0 ∧ ‹int› > 1 ⇒ counting candidates for the single-member lift: a second candidate settles that nothing is lifted",
-	"generator.appGenerator.makeCodegenApp › loop over spec.Schema #1 › conditional store #1":       "‹*generator.GenDefinition› != nil ∧ !‹*generator.GenDefinition›.External ⇒ external (x-go-type) models are imported, not generated",
-	"generator.codeGenOpBuilder.MakeOperation › loop over spec.Parameter #1 › conditional store #1": "‹generator.GenParameter›.IsQueryParam() ⇒ parameters are sorted into per-location lists: query",
-	"generator.codeGenOpBuilder.MakeOperation › loop over spec.Parameter #1 › conditional store #2": "‹generator.GenParameter›.IsFormParam() ⇒ per-location lists: formData",
-	"generator.codeGenOpBuilder.MakeOperation › loop over spec.Parameter #1 › conditional store #3": "‹generator.GenParameter›.IsPathParam() ⇒ per-location lists: path",
-	"generator.codeGenOpBuilder.MakeOperation › loop over spec.Parameter #1 › conditional store #4": "‹generator.GenParameter›.IsHeaderParam() ⇒ per-location lists: header (the full list `params` is appended to unconditionally)",
-	"generator.discriminatorInfo › loop over analysis.SchemaRef #1 › conditional store #1":          "‹analysis.SchemaRef›.Schema.Discriminator != \"\" ⇒ only definitions that declare a discriminator are base types",
-	"generator.discriminatorInfo › loop over spec.Schema #1 › conditional store #1":                 "‹spec.Schema›.Ref.String() != \"\" ∧ ‹bool› ⇒ only allOf members that $ref a base type make the definition a subtype",
-	"generator.discriminatorInfo › loop over spec.Schema #1 › conditional store #2":                 "‹spec.Schema›.Ref.String() != \"\" ∧ ‹bool› ⇒ same arm: the subtype is registered with its base type",
-	"generator.gatherModels › loop over spec.Schema #1 › conditional store #1":                      "‹int› == 0 ⇒ no --model filter: every definition is selected (the filtered case follows)",
-	"generator.schemaGenContext.buildAllOf › loop over spec.Schema #1 › conditional store #1":       "(‹generator.resolvedType›.IsAnonymous && len(‹spec.Schema›.AllOf) > 0) || (‹spec.Schema›.Ref.String() == \"\" && !‹generator.resolvedType›.IsComplexObject && (‹generator.resolvedType›.IsArray || ‹generator.resolvedType›.IsInterface || ‹generator.resolvedType›.IsPrimitive)) ⇒ an anonymous complex allOf member is replaced by a $ref to the struct generated for it",
-	"generator.schemaGenContext.buildAllOf › loop over spec.Schema #1 › conditional store #2":       "(‹generator.resolvedType›.IsAnonymous && len(‹spec.Schema›.AllOf) > 0) || (‹spec.Schema›.Ref.String() == \"\" && !‹generator.resolvedType›.IsComplexObject && (‹generator.resolvedType›.IsArray || ‹generator.resolvedType›.IsInterface || ‹generator.resolvedType›.IsPrimitive)) ⇒ arm of $ref'ed members (the other members are appended at the end of the iteration)",
-	"generator.schemaGenContext.buildProperties › loop over spec.Schema #1 › conditional store #1":  "‹generator.resolvedType›.IsComplexObject && ‹generator.resolvedType›.IsAnonymous && len(‹spec.Schema›.Properties) > 0 ⇒ an anonymous complex property gets its own struct, recorded among the extra schemas",
-	"generator.sortedResponses › loop over spec.Response #1 › conditional store #1":                 "‹int› > 0 ⇒ status codes only: the default response (code ≤ 0) is handled separately",
+	"generator.appGenerator.makeSecuritySchemes › loop over analysis.RequiredSecuritySchemes() #1 › conditional store #1": "‹bool› && ‹*spec.SecurityScheme› != nil ⇒ a scheme required by an operation but not defined in securityDefinitions has nothing to generate; the others are collected each in its own right",
+	"generator.hasValidations › loop over spec.Schema #1 › answers true #1":                                               "‹spec.Schema›.Ref.String() != \"\" || hasValidations(&‹spec.Schema›, false) ⇒ an allOf member that is a $ref, or that carries validations of its own (looked for recursively), makes the composed schema validatable",
+	"generator.codeGenOpBuilder.analyzeTags › loop over spec.Tag #1 › continue #1":                                        "‹spec.Tag›.Name != ‹string› ⇒ search for the tag object of the chosen tag name: other tags are passed over",
+	"generator.codeGenOpBuilder.analyzeTags › loop over spec.Tag #1 › break #1":                                           "‹bool› ⇒ search: the tag was found and carries x-go-name",
+	"generator.codeGenOpBuilder.analyzeTags › loop over spec.Tag #1 › break #2":                                           "‹bool› ⇒ search: the tag was found and carries x-go-operation-tag",
+	"generator.makeGenDefinitionHierarchy › loop over spec.Schema #1 › continue #1":                                       "‹generator.schemaGenContext›.GenSchema.AllOf == nil ⇒ a subtype whose resolved allOf is empty has no branch to re-point at the base type (logged)",
+	"generator.paramMappings › loop over spec.Parameter #1 › continue #1":                                                 "!‹bool› ⇒ parameter with an `in` outside the five locations: invalid spec, only reachable with --skip-validation (logged)",
+	"generator.paramMappings › loop over spec.Parameter #1 › continue #2":                                                 "‹spec.Parameter›.Name == \"\" ⇒ unnamed parameter: invalid spec, only reachable with --skip-validation (logged)",
+	"generator.schemaGenContext.buildAllOf › loop over spec.Schema #1 › continue #1":                                      "(‹generator.resolvedType›.IsAnonymous && len(‹spec.Schema›.AllOf) > 0) || (‹spec.Schema›.Ref.String() == \"\" && !‹generator.resolvedType›.IsComplexObject && (‹generator.resolvedType›.IsArray || ‹generator.resolvedType›.IsInterface || ‹generator.resolvedType›.IsPrimitive)) ⇒ end of the arm that handles a $ref'ed allOf member: the member has been merged and appended just above",
+	"generator.schemaGenContext.liftSpecialAllOf › loop over spec.Schema #1 › break #1":                                   "len(‹spec.Schema›.Type) > 0 || len(‹spec.Schema›.Properties) > 0 || ‹spec.Schema›.Ref.GetURL() != nil || len(‹spec.Schema›.AllOf) > 0 ∧ ‹int› > 1 ⇒ counting candidates for the single-member lift: a second candidate settles that nothing is lifted",
+	"generator.appGenerator.makeCodegenApp › loop over spec.Schema #1 › conditional store #1":                             "‹*generator.GenDefinition› != nil ∧ !‹*generator.GenDefinition›.External ⇒ external (x-go-type) models are imported, not generated",
+	"generator.codeGenOpBuilder.MakeOperation › loop over spec.Parameter #1 › conditional store #1":                       "‹generator.GenParameter›.IsQueryParam() ⇒ parameters are sorted into per-location lists: query",
+	"generator.codeGenOpBuilder.MakeOperation › loop over spec.Parameter #1 › conditional store #2":                       "‹generator.GenParameter›.IsFormParam() ⇒ per-location lists: formData",
+	"generator.codeGenOpBuilder.MakeOperation › loop over spec.Parameter #1 › conditional store #3":                       "‹generator.GenParameter›.IsPathParam() ⇒ per-location lists: path",
+	"generator.codeGenOpBuilder.MakeOperation › loop over spec.Parameter #1 › conditional store #4":                       "‹generator.GenParameter›.IsHeaderParam() ⇒ per-location lists: header (the full list `params` is appended to unconditionally)",
+	"generator.discriminatorInfo › loop over analysis.SchemaRef #1 › conditional store #1":                                "‹analysis.SchemaRef›.Schema.Discriminator != \"\" ⇒ only definitions that declare a discriminator are base types",
+	"generator.discriminatorInfo › loop over spec.Schema #1 › conditional store #1":                                       "‹spec.Schema›.Ref.String() != \"\" ∧ ‹bool› ⇒ only allOf members that $ref a base type make the definition a subtype",
+	"generator.discriminatorInfo › loop over spec.Schema #1 › conditional store #2":                                       "‹spec.Schema›.Ref.String() != \"\" ∧ ‹bool› ⇒ same arm: the subtype is registered with its base type",
+	"generator.gatherModels › loop over spec.Schema #1 › conditional store #1":                                            "‹int› == 0 ⇒ no --model filter: every definition is selected (the filtered case follows)",
+	"generator.schemaGenContext.buildAllOf › loop over spec.Schema #1 › conditional store #1":                             "(‹generator.resolvedType›.IsAnonymous && len(‹spec.Schema›.AllOf) > 0) || (‹spec.Schema›.Ref.String() == \"\" && !‹generator.resolvedType›.IsComplexObject && (‹generator.resolvedType›.IsArray || ‹generator.resolvedType›.IsInterface || ‹generator.resolvedType›.IsPrimitive)) ⇒ an anonymous complex allOf member is replaced by a $ref to the struct generated for it",
+	"generator.schemaGenContext.buildAllOf › loop over spec.Schema #1 › conditional store #2":                             "(‹generator.resolvedType›.IsAnonymous && len(‹spec.Schema›.AllOf) > 0) || (‹spec.Schema›.Ref.String() == \"\" && !‹generator.resolvedType›.IsComplexObject && (‹generator.resolvedType›.IsArray || ‹generator.resolvedType›.IsInterface || ‹generator.resolvedType›.IsPrimitive)) ⇒ arm of $ref'ed members (the other members are appended at the end of the iteration)",
+	"generator.schemaGenContext.buildProperties › loop over spec.Schema #1 › conditional store #1":                        "‹generator.resolvedType›.IsComplexObject && ‹generator.resolvedType›.IsAnonymous && len(‹spec.Schema›.Properties) > 0 ⇒ an anonymous complex property gets its own struct, recorded among the extra schemas",
+	"generator.sortedResponses › loop over spec.Response #1 › conditional store #1":                                       "‹int› > 0 ⇒ status codes only: the default response (code ≤ 0) is handled separately",
 }
 
 // checkGenOptsNotCopied: GenOpts carries the registry of files written so far (the collision
